@@ -3,5 +3,7 @@
 set -e
 here=$(cd "$(dirname "$0")" && pwd)
 out=${1:-$here/vsymex}
+tmp=$(mktemp "$out.XXXXXX")
 g++ -std=c++17 -O2 -g -fno-rtti -I/usr/lib/llvm-14/include -D_GNU_SOURCE -D__STDC_CONSTANT_MACROS -D__STDC_FORMAT_MACROS -D__STDC_LIMIT_MACROS \
-  "$here/vsymex.cc" -o "$out" -L/usr/lib/llvm-14/lib -lLLVM-14 -lz3 -lpthread
+  "$here/vsymex.cc" -o "$tmp" -L/usr/lib/llvm-14/lib -lLLVM-14 -lz3 -lpthread
+chmod 755 "$tmp"; mv -f "$tmp" "$out"
